@@ -13,7 +13,10 @@
 //	             a trailing p (reqmod.1p) pipelines a second request right behind the parked one
 //	    async    (token) release all parked exchanges at once instead of one after the other
 //	    R: order in which the parked exchanges are released after Close was called
-//	S n:<k> sd:<seed> [slow]                       unforced stress: k clients racing Accept/serve against Close
+//	    sc:<ms>  (token) every conn.Close() done by the proxy takes <ms> (X is recorded when it completed)
+//	W sd:<seed> ms:<budget> nl:<listeners>         child process: rounds of Close racing accepts on in-memory listeners
+//	                                               (OUT: | NOPANIC, or | PANIC:<message>)
+//	S n:<k> sd:<seed> [slow] [sc:<ms>]             unforced stress: k clients racing Accept/serve against Close
 //
 // OUT tokens: the trace, then "|", then one K<id>=<responses>:<end> per
 // accepted connection (responses: m marked complete, u unmarked complete,
@@ -87,8 +90,9 @@ type run struct {
 	nextParkAt int
 	nextUnreg  bool
 	unregGate  chan struct{}
-	inAccept   int32   // number of times Serve entered Accept
-	sleepy     *hx.RNG // stress: tiny random sleeps inside the gates
+	closeDelay time.Duration // every conn.Close() of the proxy takes this long
+	inAccept   int32         // number of times Serve entered Accept
+	sleepy     *hx.RNG       // stress: tiny random sleeps inside the gates
 	smu        sync.Mutex
 }
 
@@ -259,11 +263,19 @@ func (c *recConn) Write(b []byte) (int, error) {
 	return n, err
 }
 
+// Close records X when the close has COMPLETED (a connection whose Close
+// takes time: TLS close_notify, lingering socket, wrapping listener), so that
+// "Close returned" can be compared with "connection closed" and not merely
+// with "closing started".
 func (c *recConn) Close() error {
+	if d := c.h.closeDelay; d > 0 {
+		time.Sleep(d)
+	}
+	err := c.Conn.Close()
 	if atomic.CompareAndSwapInt32(&c.cr.closedEv, 0, 1) {
 		c.h.add(fmt.Sprintf("X%d", c.cr.id))
 	}
-	return c.Conn.Close()
+	return err
 }
 
 // gates -------------------------------------------------------------------
@@ -454,12 +466,13 @@ type env struct {
 	serve chan struct{}
 }
 
-func start() (*env, error) {
+func start(closeDelay time.Duration) (*env, error) {
 	l, err := net.Listen("tcp", "127.0.0.1:0")
 	if err != nil {
 		return nil, err
 	}
 	h := newRun()
+	h.closeDelay = closeDelay
 	p := martian.NewProxy()
 	p.SetRoundTripper(upstream{h})
 	p.SetRequestModifier(reqMod{h})
@@ -497,10 +510,16 @@ type spec struct {
 
 var points = []string{"idle", "head", "reqmod", "rt", "resmod", "write"}
 
-func parseForced(in []string) (sz int, specs []*spec, order []int, async bool) {
+func parseForced(in []string) (sz int, specs []*spec, order []int, async bool, sc time.Duration) {
 	sz = 100
 	for _, t := range in[1:] {
 		switch {
+		case strings.HasPrefix(t, "sc:"):
+			v, _ := strconv.Atoi(t[3:])
+			if v < 0 || v > 2000 {
+				v = 0
+			}
+			sc = time.Duration(v) * time.Millisecond
 		case t == "async":
 			async = true
 		case strings.HasPrefix(t, "sz:"):
@@ -556,7 +575,7 @@ func parseForced(in []string) (sz int, specs []*spec, order []int, async bool) {
 		}
 		out = append(out, s)
 	}
-	return sz, out, order, async
+	return sz, out, order, async, sc
 }
 
 func (e *env) awaitAccept(cl *client, d time.Duration) *connRec {
@@ -566,8 +585,8 @@ func (e *env) awaitAccept(cl *client, d time.Duration) *connRec {
 }
 
 func runForced(in []string) (out []string) {
-	sz, specs, order, async := parseForced(in)
-	e, err := start()
+	sz, specs, order, async, sc := parseForced(in)
+	e, err := start(sc)
 	if err != nil {
 		return []string{"ENVFAIL"}
 	}
@@ -824,7 +843,7 @@ func (e *env) finish(all []*client, flags []string) []string {
 
 // stress: k clients race accept/serve against Close, nothing is forced.
 func runStress(in []string) []string {
-	k, sd, slow := 3, uint64(1), false
+	k, sd, slow, scms := 3, uint64(1), false, 0
 	for _, t := range in[1:] {
 		switch {
 		case strings.HasPrefix(t, "n:"):
@@ -833,6 +852,8 @@ func runStress(in []string) []string {
 			sd, _ = strconv.ParseUint(t[3:], 10, 64)
 		case t == "slow":
 			slow = true
+		case strings.HasPrefix(t, "sc:"):
+			scms, _ = strconv.Atoi(t[3:])
 		}
 	}
 	if k < 1 {
@@ -841,7 +862,10 @@ func runStress(in []string) []string {
 	if k > 8 {
 		k = 8
 	}
-	e, err := start()
+	if scms < 0 || scms > 2000 {
+		scms = 0
+	}
+	e, err := start(time.Duration(scms) * time.Millisecond)
 	if err != nil {
 		return []string{"ENVFAIL"}
 	}
@@ -931,6 +955,8 @@ func runCase(in []string) (out []string) {
 		return runForced(in)
 	case "S":
 		return runStress(in)
+	case "W":
+		return runWG(in)
 	}
 	return []string{"|", "BADCASE"}
 }
@@ -973,6 +999,17 @@ func orderTok(o []int) string {
 func main() {
 	mlog.SetLevel(mlog.Silent)
 	cfg := hx.ParseFlags()
+	if strings.HasPrefix(cfg.Extra, "wgstress:") {
+		f := strings.Split(cfg.Extra, ":")
+		sd, _ := strconv.ParseUint(f[1], 10, 64)
+		ms, _ := strconv.Atoi(f[2])
+		nl, _ := strconv.Atoi(f[3])
+		if nl < 1 || nl > 32 {
+			nl = 8
+		}
+		wgStressChild(sd, time.Duration(ms)*time.Millisecond, nl)
+		return
+	}
 	defer cfg.Close()
 
 	type job struct {
@@ -1000,6 +1037,11 @@ func main() {
 			}
 			if np > 1 {
 				in = append(in, orderTok(order))
+			}
+			if n%2 == 0 {
+				// closing a connection takes time: Close must still wait for it
+				in = append(in, "sc:40")
+				cfg.Count("slowclose")
 			}
 			cfg.Count(fmt.Sprintf("conns=%d", len(pts)))
 			jobs = append(jobs, job{fmt.Sprintf("f%d", n), in})
@@ -1136,6 +1178,10 @@ func main() {
 				in = append(in, "async")
 				cfg.Count("async")
 			}
+			if rng.Chance(1, 2) {
+				in = append(in, "sc:40")
+				cfg.Count("slowclose")
+			}
 			cfg.Count(fmt.Sprintf("conns=%d", k))
 			n++
 			jobs = append(jobs, job{fmt.Sprintf("f%d", n), in})
@@ -1153,8 +1199,26 @@ func main() {
 			if i%2 == 1 {
 				in = append(in, "slow")
 			}
+			if i%3 == 0 {
+				in = append(in, "sc:25")
+			}
 			cfg.Count("kind=stress")
 			jobs = append(jobs, job{fmt.Sprintf("s%d", i+1), in})
+		}
+	}
+
+	if !replayOnly {
+		// WaitGroup-misuse search in child processes (Close racing accepts on in-memory listeners)
+		rngw := hx.NewRNG(cfg.Seed ^ 0x5757)
+		nw, ms := 3, 1500
+		if cfg.Thorough() {
+			nw, ms = 8, 4000
+		}
+		for i := 0; i < nw; i++ {
+			nl := []int{8, 4, 12}[i%3]
+			jobs = append(jobs, job{fmt.Sprintf("w%d", i+1),
+				[]string{"W", fmt.Sprintf("sd:%d", rngw.Uint64()%1000000), fmt.Sprintf("ms:%d", ms), fmt.Sprintf("nl:%d", nl)}})
+			cfg.Count("kind=wgstress")
 		}
 	}
 
